@@ -548,6 +548,18 @@ var validatorConjuncts = []conjunct{
 						return true, "overlap/adjacency test between every pair, error returned"
 					}
 				}
+				// or returned as it is: return isNonContiguousDisjoint(outer, inner)
+				if c.Referrers() != nil {
+					for _, r := range *c.Referrers() {
+						if ret, ok := r.(*ssa.Return); ok {
+							for _, rv := range ret.Results {
+								if rv == ssa.Value(c) {
+									return true, "overlap/adjacency test between every pair, its verdict returned as it is"
+								}
+							}
+						}
+					}
+				}
 			}
 		}
 		return false, "no overlap/adjacency test between intervals with its error returned"
